@@ -423,7 +423,7 @@ func init() {
 			ctx.RunCase("probes", "E", build(s), s, nil)
 		}
 		for _, sc := range pairScenarios() {
-			engine.ExploreS(ctx, sc, engine.SConfig{Bound: 2, Shard: ctx.Shard, NShards: ctx.NShards, Deadline: ctx.Deadline})
+			engine.ExploreS(ctx, sc, engine.SConfig{BothPolicies: true, Bound: 2, Shard: ctx.Shard, NShards: ctx.NShards, Deadline: ctx.Deadline})
 		}
 	})
 	hk.Replayers["C06"] = func(ctx *engine.Ctx, rp engine.Replay) []*engine.Finding {
